@@ -356,7 +356,17 @@ def replay_main(path):
         except Exception as e:
             ctx.fail('api_raised_unexpectedly', f['case'], exc=repr(e))
     else:
-        mod.replay(f, ctx)
+        try:
+            mod.replay(f, ctx)
+        except Exception as e:
+            import traceback
+            from .gen import LibraryMisbehaved
+            tb = traceback.extract_tb(e.__traceback__)
+            root = repo_root()
+            if not isinstance(e, LibraryMisbehaved) and (not tb or not os.path.realpath(tb[-1].filename).startswith(root + os.sep)):
+                raise
+            ctx.fail('api_raised_unexpectedly', f.get('case'), exc=repr(e),
+                     where='%s:%d %s' % (os.path.basename(tb[-1].filename), tb[-1].lineno, tb[-1].name) if tb else '')
     if ctx.failures:
         from . import findings
         known, viol = findings.classify(prop, jsonable(ctx.failures))
